@@ -209,6 +209,14 @@ func (f *Frame) external(fn *ssa.Function, args []Val, c *ssa.CallCommon, pos to
 	case "strconv.Itoa":
 		vc.sc.decl("strconv.Itoa", "(declare-fun strconv.Itoa (Int) String)")
 		return Val{t: app("strconv.Itoa", a(0)), typ: strT}, false
+	case "strings.ReplaceAll":
+		// the SMT string theory has this function; the one fact contracts use about it is stated
+		// explicitly: no occurrence of a non-empty `old` survives when `new` brings none back
+		s, oldS, newS := a(0), a(1), a(2)
+		usedAxioms["A2:strings.ReplaceAll (= str.replace_all; a one-character `old` that `new` does not contain does not occur in the result)"] = true
+		r := vc.sc.define("replaceall", "String", app("str.replace_all", s, oldS, newS))
+		f.assume(implies(and(not(eq(oldS, smtString(""))), eq(app("str.len", oldS), "1"), not(app("str.contains", newS, oldS))), not(app("str.contains", r, oldS))))
+		return Val{t: r, typ: strT}, false
 	case "strings.Split":
 		// a fresh slice whose length is a function of the arguments: at least 1, exactly 1 iff the
 		// (non-empty) separator does not occur, in which case the only part is the string itself
